@@ -56,6 +56,8 @@ def canon(v, depth=0):
         return (t.__name__, v)
     if isinstance(v, (bool, int, float, str)):  # sub-primitives
         return (t.__name__, "nan" if isinstance(v, float) and v != v else v)
+    if t.__name__ == "deque" and t.__module__ == "collections":
+        return ("deque", tuple(canon(e, depth + 1) for e in v))
     if t in (list, tuple) or (isinstance(v, (list, tuple)) and not hasattr(v, "_fields")):
         return (t.__name__, tuple(canon(e, depth + 1) for e in v))
     if hasattr(v, "_fields") and isinstance(v, tuple):  # NamedTuple
@@ -307,6 +309,7 @@ COLL = {  # annotation, image class, is-set
     "mutseq": ("MutableSequence[{}]", "list", False), "blist": ("list[{}]", "list", False),
     "set": ("Set[{}]", "set", True), "absset": ("AbstractSet[{}]", "set", True), "mutset": ("MutableSet[{}]", "set", True),
     "frozenset": ("FrozenSet[{}]", "frozenset", True), "vartuple": ("Tuple[{}, ...]", "tuple", False),
+    "deque": ("Deque[{}]", "deque", False),  # standard-library conversion list <-> deque
 }
 
 
